@@ -495,7 +495,12 @@ class System:
                     raise SolverError(f'failed to converge in {maxiter} iterations')
                 iiter += 1
                 with log.context(f'iter {iiter}'):
-                    arguments, resnorm = next(m)
+                    try:
+                        arguments, resnorm = next(m)
+                    except StopIteration: # finite method, e.g. Arnoldi
+                        if resnorm <= tol:
+                            break
+                        raise SolverError(f'solver terminated before reaching the desired tolerance of {tol:.0e}') from None
                     progress = numpy.log(resnorm0/resnorm) / numpy.log(resnorm0/tol) if resnorm > tol else 1
                     log.info(f'residual norm: {resnorm:.1e} ({100*progress:.0f}%)')
 
